@@ -67,7 +67,19 @@ func (g *Gen) instOne(ff *forallFact, t string) {
 		return
 	}
 	ff.done[t] = true
-	g.s.assumeUnder(ff.guard, imp(ff.outer, ff.inst(t)))
+	g.instGen++
+	body := ff.inst(t)
+	g.instGen--
+	g.s.assumeUnder(ff.guard, imp(ff.outer, body))
+}
+
+// addInstTermGen adds a term produced while translating contracts; terms produced by
+// instantiating facts at such terms are followed for two generations only.
+func (g *Gen) addInstTermGen(so, t string) {
+	if g.instGen > 2 || len(g.instTerms[so]) > 80 || len(t) > 200 {
+		return
+	}
+	g.addInstTerm(so, t)
 }
 
 func (g *Gen) instForalls(t string) { g.addInstTerm("Int", t) }
@@ -224,10 +236,11 @@ func (e *Env) ident(n string) CV {
 			return CV{v, c.Type().Underlying().(*types.Pointer).Elem()}
 		}
 	}
-	if so, ok := g.Specs.GhostVar[n]; ok {
+	if gt, ok := g.Specs.GhostVar[n]; ok {
+		ty, so := g.resolveType(gt)
 		h := "ghost." + n
 		g.declHeap(h, so)
-		return g.cv(g.readHeap(e.st, h, ""), so, nil)
+		return g.cv(g.readHeap(e.st, h, ""), so, ty)
 	}
 	if o := g.P.Pkg.Types.Scope().Lookup(n); o != nil {
 		switch o := o.(type) {
@@ -334,6 +347,11 @@ func (e *Env) index(b, i CV) CV {
 		}
 		h := g.elemHeapOf(u.Elem())
 		arr := g.readHeap(e.st, h, "(ptr "+b.S+")")
+		if g.s.noDef == 0 {
+			// positions a contract reads are also positions the remembered universal facts are used at
+			g.addInstTermGen("Int", "(+ (off "+b.S+") "+i.S+")")
+			g.addInstTermGen("Int", i.S)
+		}
 		v := T{"(select " + arr + " (+ (off " + b.S + ") " + i.S + "))", g.sortOf(u.Elem())}
 		g.s.assumeUnder(e.pc, g.typeInv(e.st, v, u.Elem()))
 		return CV{v, u.Elem()}
@@ -622,6 +640,10 @@ func (e *Env) call(x *CE, pos bool) CV {
 		}
 		k = e.coerce(k, g.mapKeySort(mt))
 		return g.cv("(select "+g.readHeap(e.st, g.mapHasHeap(mt), m.S)+" "+k.S+")", "Bool", nil)
+	case "pair":
+		kt, _ := g.resolveType("KVPair")
+		so := g.sortOf(kt)
+		return g.cv("(mk.KVPair "+e.coerce(argv(0), "NB").S+" "+e.coerce(argv(1), "NB").S+")", so, kt)
 	case "visited":
 		if e.iterHeap == "" {
 			fail("visited() outside a loop over a map")
